@@ -35,13 +35,13 @@ let show_tokens toks =
   String.concat "," (List.map (fun t -> Printf.sprintf "%s:%d:%d" (kname t.tk_kind) (int_of_n t.tk_start) (int_of_n t.tk_len)) toks)
 
 let show_map m =
-  let l = List.map (fun (k, vs) -> (int_of_nat k, List.map int_of_nat vs)) m in
+  let l = List.map (fun (k, vs) -> (int_of_n k, List.map int_of_n vs)) m in
   let l = List.sort compare l in
   String.concat "," (List.map (fun (k, vs) -> Printf.sprintf "%d=%s" k (String.concat "." (List.map string_of_int vs))) l)
 
 let show_pre pp =
   Printf.sprintf "%s|%s|%s"
-    (String.concat "," (List.map (fun i -> string_of_int (int_of_nat i)) pp.pp_token_indices))
+    (String.concat "," (List.map (fun i -> string_of_int (int_of_n i)) pp.pp_token_indices))
     (show_map pp.pp_leading) (show_map pp.pp_trailing)
 
 let () =
